@@ -352,9 +352,17 @@ func counts(asked map[string]int, c *world.DCluster, P int) []int {
 // harness asserts the behaviour through world.LoopVarCanary (see world/canary.go).
 const c14Keys = `^partition-contents-lost-by-catalogue-restore`
 
+// a dataset's size is the sum of what its partitions' counters say: a partition whose item or byte counter drifts away
+// from what it stores (after an update, a remove, a snapshot restored over existing items ...) makes the sum depend on
+// which replica is asked. C02's partition-level search keeps both counters under watch after every entry.
+const c02Keys = `^(data-bytes-drift|len-mismatch|bytes-size-out-of-range)`
+
 func main() {
 	if len(os.Args) > 2 && os.Args[1] == "--replay" && ev.PartOf(os.Args[2]) == "C14" {
 		ev.ReplayPart("C17", os.Getenv("VERIF_BIN_C14"), c14Keys, os.Args[2], "VERIF_PART_MODE=catlog", "VERIF_TUNABLE_snapshotOffset=0")
+	}
+	if len(os.Args) > 2 && os.Args[1] == "--replay" && ev.PartOf(os.Args[2]) == "C02" {
+		ev.ReplayPart("C17", os.Getenv("VERIF_BIN_C02"), c02Keys, os.Args[2])
 	}
 	if len(os.Args) > 1 && os.Args[1] == "--race-pass" {
 		racePass()
@@ -395,6 +403,7 @@ func main() {
 			// not swap that object for an empty one (the size would silently drop to zero) - C14's catalogue-log part on
 			// a used restoring node, counted here for that clause
 			run.RunPart("catalogue-restore-C14", os.Getenv("VERIF_BIN_C14"), c14Keys, "VERIF_PART_MODE=catlog", "VERIF_PART_SCENARIOS=^$", "VERIF_TUNABLE_snapshotOffset=0")
+			run.RunPart("partition-counters-C02", os.Getenv("VERIF_BIN_C02"), c02Keys)
 			return racepass.Run(run, os.Getenv("VERIF_C17_RACE"))
 		}},
 		"model_checking", []string{
